@@ -78,7 +78,7 @@ def run(chk, replay=None):
     cases = cc.spec_cases(chk, "c01mc")
     ev1 = cc.replay(chk, cases, want)
     chk.ev.sample({"spec_case": {k: cases[len(cases) // 3][k] for k in ("cls", "a", "cdb", "ctor")}})
-    events = record_random(chk, cases, 40 if chk.quick else 400)
+    events = record_random(chk, cases, 40 if chk.quick else 1500)
     events = ev1 + events
     cc.judge(chk, events, want, "c01tr")
     chk.ev.sample({"event": events[len(events) // 2]})
